@@ -89,6 +89,7 @@ def run_harnesses(scratch, package, harnesses, timeout_s, jobs, log, extra=None)
         undecided_reason = None
         cover_total = cover_sat = 0
         n_assert = 0
+        ignored = 0
         for c in checks:
             cat = c.get("category", "")
             st = c.get("status", "")
@@ -101,6 +102,7 @@ def run_harnesses(scratch, package, harnesses, timeout_s, jobs, log, extra=None)
                 desc = c.get("description", "")
                 if desc.startswith("NaN on ") or desc.startswith("arithmetic overflow on floating-point"):
                     # CBMC's optional float diagnostics: producing NaN/inf is not a panic in Rust
+                    ignored += 1
                     continue
                 if cat in ("unwind", "unwinding") or "unwinding assertion" in desc:
                     undecided_reason = "unwinding assertion failed: bound too small for this input (tool limit)"
@@ -122,7 +124,8 @@ def run_harnesses(scratch, package, harnesses, timeout_s, jobs, log, extra=None)
         elif undecided_reason:
             res["status"] = "undecided"
             res["detail"] = undecided_reason
-        elif status == "Success":
+        elif status == "Success" or (ignored and n_assert > 0 and not timed_out):
+            # (overall "Failure" whose only failing checks are the ignored float diagnostics: every assertion held)
             if cover_total and cover_sat < cover_total:
                 res["status"] = "undecided"
                 res["detail"] = "vacuity guard: a cover! after the assumptions is unsatisfiable"
